@@ -11,7 +11,10 @@ Gates
      g1W, g0W, m1W, m0W) satisfies its own score equations to 1e-7*n.  If not: discard (non-convergence).
   K  (nuisance layer) zEpid's fluctuation coefficients = the reference coefficients; (model layer) the Lean model run by
      the driver at Float on (A, Delta, Y, Q, g, m, eps) reproduces the probe's Qstar/Qstar1/Qstar0, g totals, the reported
-     estimates, influence-curve SEs and CIs (z as the code chooses it: 1.96 iff alpha == 0.05, that is C06's finding F12).
+     estimates, influence-curve SEs and CIs (z as the code chooses it: 1.96 iff alpha == 0.05, that is C06's finding F12);
+     (nuisance layer, outcome model) QA1W / QA0W / QAW = the model's truncation (`Tmle.truncate`: [b, 1-b] of a float,
+     entries 0 and 1 of a collection of any kind and length, [cb, 1-cb] by default; offset from the truncated pair)
+     applied to the predictions of a reference outcome GLM fitted by the harness with the documented arguments.
   D  on the real arrays: both efficient-score sums (with Q*A and with Q*1/Q*0; g recomputed independently) <= 1e-7*n;
      Q*A is the arm's counterfactual prediction; reported RD/RR/OR/ATE = plug-ins of the probe arrays; all Q* in [0,1];
      back-transformed values within the observed outcome range; estimates inside the parameter space; unit-interval
@@ -31,7 +34,8 @@ REQUIRED = ['qstar_consistent', 'score_rowwise', 'score_identity', 'score_equati
             'range_binary', 'range_binary_closed', 'unbound_range', 'range_continuous', 'range_crossfit',
             'unit_bounds_range', 'unit_roundtrip', 'unit_roundtrip_clip', 'expit_real_range',
             'expit_real_strictMono', 'expit_logit_real', 'range_binary_real', 'score_equations_real', 'tmle_fit_generated_binary', 'tmle_fit_generated_continuous', 'tmle_fit_generated_useMiss',
-            'xfit_targeting_generated']
+            'xfit_targeting_generated', 'init_clip_range', 'init_offset', 'truncate_collection', 'truncate_range',
+            'null_fluctuation_real', 'observers_noop', 'report_after_observers', 'plugin_after_observers']
 RULE = ('TMLE.fit: (1) every cell of outcome {binary, continuous} x outcome missingness {none, missing without model, '
         'missing with missing_model} x g truncation {none, symmetric, asymmetric} x covariates {categorical only, '
         'categorical + continuous}, with alpha, continuous_bound, outcome-model bound, missing-model bound, GLM family '
@@ -44,7 +48,17 @@ RULE = ('TMLE.fit: (1) every cell of outcome {binary, continuous} x outcome miss
         'caller frame with interleaved calls -- the state after the LAST fit is judged by the property predicates and '
         'against a fresh object given the last specification; (3) the custom_model path of each nuisance model alone '
         'and together; (4) extreme but valid data: near-positivity violations without g truncation (g down to 1e-7, '
-        'eps/g beyond the overflow threshold of exp), outcome risks of a few per cent. All predicates use the A and Y '
+        'eps/g beyond the overflow threshold of exp), outcome risks of a few per cent; (5) rows the estimator must '
+        'discard; (6) every reporting / diagnostic method (summary with 1/3/5 decimals, run_diagnostics, positivity, '
+        'standardized_mean_differences, plot_kde exposure / outcome, plot_love) called between two model '
+        'specifications, between the last specification and fit(), and between fit() and reading the results -- one '
+        'cell per method x position x outcome type, inside every kind of history, and at random off the plain path; '
+        'whether such a call succeeds is not judged, the estimator afterwards is (property predicates + fresh object, '
+        'including the nuisance predictions a caller can read back); (7) how a truncation bound is handed over: float, '
+        'list, tuple, a collection with a third entry, limits of exactly 0 or 1 (g and missing model), symmetric and '
+        'asymmetric bounds on the initial outcome predictions, for each nuisance model alone and for all three; '
+        'right-skewed continuous outcomes, for which the Gaussian outcome model predicts outside the unit interval so '
+        'that the truncation of the initial predictions is what keeps their logit defined. All predicates use the A and Y '
         'of the frame the caller passed in (snapshot taken before the estimator sees it). Data sets are simulated '
         '(logistic treatment / outcome / missingness mechanisms with random coefficients). '
         'Cross-fit: direct calls of targeting_step / tmle_calculator on generated nuisance predictions with 2-4 '
@@ -97,8 +111,13 @@ def gen_data(dseed, cfg):
         if cfg['outcome'] == 'binary':
             y = (r.uniform(size=n) < expit(liny)).astype(float)
         else:
-            y = np.round(float(r.choice([0.0, 20.0, -7.5])) + float(r.choice([1.0, 5.0, 0.25])) *
-                         (liny + r.normal(0, 1, n)), 3)
+            base, scale, raw = float(r.choice([0.0, 20.0, -7.5])), float(r.choice([1.0, 5.0, 0.25])), \
+                liny + r.normal(0, 1, n)
+            if cfg.get('skew'):
+                # right-skewed outcome: a Gaussian outcome model then predicts below the observed minimum (below 0 on
+                # the unit scale) for some rows, so the truncation of the initial predictions really has work to do
+                raw = np.exp(float(cfg['skew']) * raw)
+            y = np.round(base + scale * raw, 3)
         if cfg['missing'] != 'none':
             bm = r.normal(0, 0.6, 3)
             pobs = expit(1.4 + bm[0] * a + bm[1] * w1 + (bm[2] * x if cfg['xcont'] else 0))
@@ -202,35 +221,109 @@ def new_tmle(df, cfg):
     return TMLE(df, exposure='A', outcome='Y', alpha=cfg['alpha'])
 
 
+BOUND_KINDS = ('list', 'tuple', 'list3', 'tuple3')
+
+
+def bound_arg(v, kind=None):
+    """the `bound=` argument as the caller writes it.  `v` is None (no truncation requested), a float (symmetric) or
+    the pair [lo, hi] that is to be applied; `kind` says how a pair is handed over: a list or a tuple ("a collection
+    of floats"), optionally with a third entry, which is documented to be ignored (with a warning).  cfg stores the
+    pair as a list and the kind as a string, so that a replay file (JSON) reproduces the container exactly."""
+    if v is None:
+        return False
+    if isinstance(v, float):
+        return v
+    seq = [float(x) for x in v]
+    kind = kind or 'list'
+    if kind.endswith('3'):
+        seq = seq + [0.5 * (seq[1] + 1.0)]
+    return tuple(seq) if kind.startswith('tuple') else seq
+
+
+def bound_interval(v, default):
+    """the interval [lo, hi] a requested truncation confines the values to (`default` when none was requested)"""
+    if v is None:
+        return default
+    if isinstance(v, float):
+        return v, 1 - v
+    return float(v[0]), float(v[1])
+
+
+# reporting / diagnostic methods of TMLE.  The documentation presents them as read-only ("prints", "returns axes"), and
+# the work flows of the docstrings call them between the model specifications and fit(), and between fit() and reading
+# the estimates.  name -> call
+OBSERVERS = {
+    'summary': lambda t: t.summary(),
+    'summary:1': lambda t: t.summary(decimal=1),
+    'summary:5': lambda t: t.summary(decimal=5),
+    'run_diagnostics': lambda t: t.run_diagnostics(),
+    'run_diagnostics:1': lambda t: t.run_diagnostics(decimal=1),
+    'positivity': lambda t: t.positivity(),
+    'smd': lambda t: t.standardized_mean_differences(),
+    'kde_exposure': lambda t: t.plot_kde(to_plot='exposure'),
+    'kde_outcome': lambda t: t.plot_kde(to_plot='outcome'),
+    'kde_outcome:silverman': lambda t: t.plot_kde('outcome', bw_method='silverman', fill=False),
+    'love': lambda t: t.plot_love(),
+}
+CHEAP_OBSERVERS = ('summary', 'summary:1', 'summary:5', 'positivity', 'smd')
+
+
+def observe(t, names):
+    """call the named reporting / diagnostic methods.  Whether such a call succeeds is not C03's business (a method
+    that is not available yet raises; some raise in this environment for reasons of their own, see C11): an exception
+    is swallowed.  What C03 judges is the estimator afterwards."""
+    if not names:
+        return
+    import common
+    import matplotlib.pyplot as plt
+    for name in names:
+        try:
+            with common.quiet():
+                OBSERVERS[name](t)
+        except Exception:                               # noqa: BLE001
+            pass
+        finally:
+            plt.close('all')
+
+
 def spec_model(t, cfg, which):
     gf, mf, qf = formulas(cfg)
     custom = cfg.get('custom') or ''
     cm = learner(which, cfg) if which in custom else None
     if which == 'g':
-        t.exposure_model(gf, custom_model=cm, bound=cfg['gbound'] if cfg['gbound'] is not None else False,
-                         print_results=False)
+        t.exposure_model(gf, custom_model=cm, bound=bound_arg(cfg['gbound'], cfg.get('gbk')), print_results=False)
     elif which == 'm':
         if cfg['missing'] == 'model':
-            t.missing_model(mf, custom_model=cm, bound=cfg['mbound'] if cfg['mbound'] is not None else False,
-                            print_results=False)
+            t.missing_model(mf, custom_model=cm, bound=bound_arg(cfg['mbound'], cfg.get('mbk')), print_results=False)
     elif cfg['outcome'] == 'continuous':
-        t.outcome_model(qf, custom_model=cm, print_results=False,
-                        bound=cfg['qbound'] if cfg['qbound'] is not None else False,
+        t.outcome_model(qf, custom_model=cm, print_results=False, bound=bound_arg(cfg['qbound'], cfg.get('qbk')),
                         continuous_distribution=cfg['dist'])
     else:
         t.outcome_model(qf, custom_model=cm, print_results=False)
 
 
-def spec_all(t, cfg):
+def spec_all(t, cfg, observers=False):
     for which in (cfg.get('order') or 'gmq'):
         spec_model(t, cfg, which)
+        if observers:
+            observe(t, cfg.get('mid'))                  # between two model specifications
 
 
-def fit_tmle(df, cfg):
+def fit_tmle(df, cfg, observers=False):
+    """specify and fit; with `observers` the reporting / diagnostic calls of cfg['mid' / 'pre' / 'post'] are made
+    between the specifications, before fit() and after it (the reference object is always built without them)"""
     t = new_tmle(df, cfg)
-    spec_all(t, cfg)
-    t.fit()
+    spec_all(t, cfg, observers)
+    last_fit(t, cfg, observers)
     return t
+
+
+def last_fit(t, cfg, observers=True):
+    if observers:
+        observe(t, cfg.get('pre'))
+    t.fit()
+    if observers:
+        observe(t, cfg.get('post'))
 
 
 HISTORIES = ('single', 'refit', 'respec_q', 'respec_g', 'respec_m', 'respec_all', 'shared_frame')
@@ -241,35 +334,36 @@ def run_history(df, cfg, cfg0, hist):
     Returns the object whose final fit is judged."""
     import common
     if hist == 'single':
-        return fit_tmle(df, cfg)
+        return fit_tmle(df, cfg, observers=True)
     if hist == 'refit':
-        t = fit_tmle(df, cfg)
+        t = fit_tmle(df, cfg, observers=True)
         with common.quiet():
             t.summary()
-        t.fit()
+        last_fit(t, cfg)
         return t
     if hist == 'shared_frame':
         # two estimators built from the caller's one frame object; the first is specified and fitted in between
         t = new_tmle(df, cfg)
-        other = fit_tmle(df, cfg0)
-        spec_all(t, cfg)
+        other = fit_tmle(df, cfg0, observers=True)
+        spec_all(t, cfg, observers=True)
         other.fit()
-        t.fit()
+        observe(other, cfg.get('post'))                 # reporting on the other object
+        last_fit(t, cfg)
         return t
-    t = fit_tmle(df, cfg0)
+    t = fit_tmle(df, cfg0, observers=True)
     if hist == 'respec_all':
         with common.quiet():
             t.summary()
-        spec_all(t, cfg)
+        spec_all(t, cfg, observers=True)
     else:
         # only one nuisance model is specified again; the others keep cfg0's specification, so the judged
         # specification is cfg0 with that model's options taken from cfg (see merged_cfg)
         spec_model(t, merged_cfg(cfg, cfg0, hist), {'respec_q': 'q', 'respec_g': 'g', 'respec_m': 'm'}[hist])
-    t.fit()
+    last_fit(t, cfg)
     return t
 
 
-MODEL_KEYS = {'q': ('inter', 'qbound', 'dist'), 'g': ('gbound',), 'm': ('mbound',)}
+MODEL_KEYS = {'q': ('inter', 'qbound', 'qbk', 'dist'), 'g': ('gbound', 'gbk'), 'm': ('mbound', 'mbk')}
 
 
 def merged_cfg(cfg, cfg0, hist):
@@ -279,7 +373,7 @@ def merged_cfg(cfg, cfg0, hist):
     which = {'respec_q': 'q', 'respec_g': 'g', 'respec_m': 'm'}[hist]
     out = dict(cfg0)
     for k in MODEL_KEYS[which]:
-        out[k] = cfg[k]
+        out[k] = cfg.get(k)
     out['custom'] = ''.join(sorted((set(cfg0.get('custom') or '') - {which}) |
                                    (set(cfg.get('custom') or '') & {which})))
     return out
@@ -302,6 +396,34 @@ def reference_fluctuation(y, a, qa, g1, g0):
     s1 = float(np.sum((h1 * (y - mu))[obs]))
     s0 = float(np.sum((h0 * (y - mu))[obs]))
     return np.asarray(ref.params, dtype=float), (s1, s0), int(obs.sum())
+
+
+def reference_outcome(snap, y, cfg):
+    """the outcome model as documented, fitted by the harness itself: GLM of the outcome (unit scale for continuous
+    outcomes) on the formula over the analysed rows with an observed outcome, family by outcome type / the requested
+    distribution; returns its predictions for every analysed row with the exposure set to 1 and to 0 (before any
+    truncation), or None when the reference call fails"""
+    import statsmodels.api as sm
+    import statsmodels.formula.api as smf
+    if cfg['outcome'] == 'binary':
+        fam = sm.families.family.Binomial()
+    else:
+        fam = sm.families.family.Poisson() if cfg['dist'] == 'poisson' else sm.families.family.Gaussian()
+    ref = snap.copy()
+    ref['A'] = np.asarray(ref['A'], dtype=float)
+    ref['Y'] = y
+    try:
+        import common
+        with common.quiet():
+            fit = smf.glm('Y ~ ' + formulas(cfg)[2], ref[ref['Y'].notna()], family=fam).fit()
+            out = []
+            for level in (1, 0):
+                d = ref.copy()
+                d['A'] = level
+                out.append(np.asarray(fit.predict(d), dtype=float))
+    except Exception:                                   # noqa: BLE001  (reference call failed: not compared)
+        return None
+    return out if all(np.all(np.isfinite(v)) for v in out) else None
 
 
 def fl_list(v):
@@ -329,9 +451,17 @@ def check_tmle_case(chk, drv, cfg, dseed, hist='single', cfg0=None):
     chk.count(cell_name(cfg))
     chk.count('history ' + hist)
     for k in ('extreme', 'rare', 'custom', 'adtype', 'index', 'warm', 'termorder', 'order', 'dropped', 'positional',
-              'xscale'):
+              'xscale', 'skew'):
         if cfg.get(k):
             chk.count('%s=%s' % (k, cfg[k]))
+    for k in ('mid', 'pre', 'post'):
+        for name in cfg.get(k) or ():
+            chk.count('observer %s-fit: %s' % (k, name))
+    for k, kk in (('gbound', 'gbk'), ('qbound', 'qbk'), ('mbound', 'mbk')):
+        if isinstance(cfg.get(k), list):
+            chk.count('%s given as %s' % (k, cfg.get(kk) or 'list'))
+            if cfg[k][0] == 0.0 or cfg[k][1] == 1.0:
+                chk.count('%s with a limit of exactly 0 or 1' % k)
     try:
         df = gen_data(dseed, cfg)
         snap = df.copy(deep=True)                        # what the caller passed in
@@ -367,7 +497,8 @@ def check_tmle_case(chk, drv, cfg, dseed, hist='single', cfg0=None):
         return
     try:
         evaluate_tmle(chk, drv, t, snap, eff, case)
-        if hist != 'single':
+        if hist != 'single' or any(cfg.get(k) for k in ('mid', 'pre', 'post')) or \
+                any(eff.get(k) not in (None, 'list') for k in ('gbk', 'qbk', 'mbk')):
             compare_fresh(chk, t, snap, eff, case)
     except Exception as e:                              # noqa: BLE001
         import traceback
@@ -383,7 +514,10 @@ def estimates_of(t, cont):
 
 def compare_fresh(chk, t, snap, eff, case):
     """history independence of the targeting step: same numbers as a fresh object with the last specification"""
-    fresh_cfg = dict(eff, order='gmq')
+    # the reference invocation: canonical order of the specifications, no reporting calls, and every asymmetric
+    # bound written the way the docstrings show it (a two-entry list) -- a tuple, or a third entry that is documented
+    # to be ignored, denotes the same bound
+    fresh_cfg = dict(eff, order='gmq', gbk='list', qbk='list', mbk='list')
     try:
         f = fit_tmle(snap.copy(deep=True), fresh_cfg)
     except Exception as e:                              # noqa: BLE001
@@ -398,8 +532,13 @@ def compare_fresh(chk, t, snap, eff, case):
     for k in ('Qstar', 'Qstar1', 'Qstar0'):
         if not allclose(np.asarray(pa[k], dtype=float).tolist(), pb[k], rtol=1e-7, atol=1e-9):
             bad.append(k)
+    # the nuisance predictions the caller can read back are the ones the last specification produces (a reporting or
+    # diagnostic call must not have touched them, before or after fit)
+    for k in ('QA1W', 'QA0W', 'QAW', 'g1W', 'g0W'):
+        if not allclose(np.asarray(getattr(t, k), dtype=float).tolist(), getattr(f, k), rtol=1e-7, atol=1e-9):
+            bad.append(k)
     chk.d(not bad, 'after the call history the estimates and targeted predictions equal those of a fresh object with '
-          'the last specification', dict(case, differs=bad, history=a, fresh=b))
+          'the last specification (bounds written as two-entry lists)', dict(case, differs=bad, history=a, fresh=b))
 
 
 def analysed_rows(snap, outcome='Y', drop_outcome=False):
@@ -445,7 +584,7 @@ def evaluate_tmle(chk, drv, t, snap, cfg, case):
     if cfg['gbound'] is None:
         truncated = False
     else:
-        ends = [cfg['gbound'], 1 - cfg['gbound']] if isinstance(cfg['gbound'], float) else list(cfg['gbound'])
+        ends = list(bound_interval(cfg['gbound'], None))
         truncated = bool(np.any(np.isin(g1, ends)) or np.any(np.isin(g0, ends)))
     moved = bool(abs(eps[0]) > 1e-6 and abs(eps[1]) > 1e-6)
     nontriv = moved and (cfg['gbound'] is None or truncated)
@@ -512,10 +651,13 @@ def evaluate_tmle(chk, drv, t, snap, cfg, case):
               dict(case, reported=got, plugin=want))
     others = ('risk_difference', 'risk_ratio', 'odds_ratio') if cont else ('average_treatment_effect',)
     chk.d(all(getattr(t, o) is None for o in others), 'only the measures of the outcome type are reported', case)
-    # initial predictions were clipped into [bound, 1-bound] (else logit is undefined)
-    qb = cfg.get('qbound') if cont and cfg.get('qbound') is not None else (cfg['cb'] if cont else 0.0)
-    chk.d(bool(np.all((q1 >= qb) & (q1 <= 1 - qb) & (q0 >= qb) & (q0 <= 1 - qb))),
+    # initial predictions were clipped into [bound, 1-bound] / [lower, upper] (else logit is undefined)
+    qlo, qhi = bound_interval(cfg.get('qbound') if cont else None, (cfg['cb'], 1 - cfg['cb']) if cont else (0.0, 1.0))
+    chk.d(bool(np.all((q1 >= qlo) & (q1 <= qhi) & (q0 >= qlo) & (q0 <= qhi))),
           'initial predictions lie in [bound, 1-bound]', case)
+    if cont:
+        chk.count('initial prediction truncated' if bool(np.any(np.isin(q1, (qlo, qhi))) or np.any(np.isin(q0, (qlo, qhi))))
+                  else 'no initial prediction truncated')
     if cont:
         slack = 1e-12 * max(1.0, abs(lo), abs(hi))
         for v in (qs, qs1, qs0):
@@ -605,6 +747,26 @@ def evaluate_tmle(chk, drv, t, snap, cfg, case):
             bad = [key for key, v in pairs if not close(unfx(rep['g' + key]), float(v), rtol=RT, atol=1e-12)]
             chk.k(not bad, 'TMLE.fit = definition generated from its source (%s)' % cfg['outcome'],
                   {'case': case, 'mismatch': bad})
+        # ---- K (nuisance layer, outcome model): what fit() finds in QA1W / QA0W / QAW is the documented outcome
+        # model's prediction (reference invocation by the harness) truncated as the model of `outcome_model` says --
+        # interval = the float's [b, 1-b], entries 0 and 1 of a collection of any kind and length, [cb, 1-cb] when no
+        # bound was requested -- and the offset is formed from the truncated pair.  1e-8: two IRLS runs on the same data
+        if 'q' not in (cfg.get('custom') or ''):
+            refq = reference_outcome(snap, y, cfg)
+            if refq is None:
+                chk.count('reference outcome model not available')
+            else:
+                qbv = cfg.get('qbound') if cont else None
+                if isinstance(qbv, list):
+                    spec = dict(spec='coll', items=fl_list(bound_arg(qbv, cfg.get('qbk'))))
+                else:
+                    spec = dict(spec='sym', b=fx(float(qbv) if qbv is not None else float(cb)))
+                rep, _ = drv.ask('qinit', a=enc_list(a.astype(int).tolist(), str), q1=fl_list(refq[0]),
+                                 q0=fl_list(refq[1]), **spec)
+                bad = [k for k, v in (('q1', q1), ('q0', q0), ('qa', np.asarray(t.QAW, dtype=float)))
+                       if rep['status'] != 'ok' or not allclose(dec_list(rep[k], unfx), v, rtol=1e-8, atol=1e-10)]
+                chk.k(not bad, 'QA1W / QA0W / QAW = model of outcome_model\'s truncation applied to the reference '
+                      'outcome model\'s predictions', {'case': case, 'mismatch': bad, 'status': rep.get('status')})
         if cont:
             rep, _ = drv.ask('unit', y=fl_list(np.where(np.isnan(y_in), 0.0, y_in)), mini=fx(lo), maxi=fx(hi),
                              cb=fx(cfg['cb']))
@@ -794,12 +956,19 @@ def check_cf_estimator(chk, drv, cfg, dseed):
     mod.targeting_step = recording
     try:
         est = cls(df, exposure='A', outcome='Y', alpha=0.05)
-        est.exposure_model('W1 + X', learner, bound=cfg['gbound'] if cfg['gbound'] is not None else False)
+        est.exposure_model('W1 + X', learner, bound=bound_arg(cfg['gbound'], cfg.get('gbk')))
         # a fractional-logit GLM keeps the initial predictions of a unit-scaled continuous outcome inside (0,1), which
         # is the precondition of the targeting step (the cross-fit estimators do not clip outcome predictions)
         est.outcome_model('A + W1 + X', GLMSL(binom) if cont else learner)
         est.fit(n_splits=cfg['k'], n_partitions=1, random_state=0 if cfg.get('rs0') else int(dseed % 100000))
         err = None
+        for name in cfg.get('post') or ():              # the class's reporting method, before the results are read
+            try:
+                import common
+                with common.quiet():
+                    OBSERVERS[name](est)
+            except Exception:                           # noqa: BLE001  (not judged, see observe)
+                pass
     except Exception as e:                              # noqa: BLE001
         err = '%s: %s' % (type(e).__name__, e)
     finally:
@@ -808,6 +977,7 @@ def check_cf_estimator(chk, drv, cfg, dseed):
     chk.case(case, ('cfe', repr(sorted(cfg.items(), key=str)), dseed) if not err else None)
     chk.count('crossfit_%s_%s' % (cfg['estimator'], cfg['outcome']))
     chk.count('crossfit adtype=%s' % cfg.get('adtype'))
+    chk.count('crossfit gbound given as %s, reporting call before reading: %s' % (cfg.get('gbk'), bool(cfg.get('post'))))
     if err is not None:
         chk.d(False, '%s raised on an admissible data set: %s' % (cfg['estimator'], err), case)
         return
@@ -883,17 +1053,36 @@ def check_unit_exact(chk, drv, rng, reps):
 # ------------------------------------------------------------------------------------------------ driver
 def spec_options(rng, outcome, missing, gkind, plain=False):
     """options of the three nuisance-model specifications (everything that can be re-specified on a live object)"""
+    def pair(lo, hi, ends=True):
+        # an asymmetric bound [lower, upper]; off the plain path a limit is now and then exactly 0 or exactly 1
+        # (documented as admissible: "between (0, 1)" is checked as 0 <= lower, upper <= 1), which leaves that side
+        # untruncated
+        v = [float(np.round(rng.uniform(*lo), 3)), float(np.round(rng.uniform(*hi), 3))]
+        u = rng.uniform()
+        if ends and not plain and u < 0.3:
+            v[0 if u < 0.15 else 1] = 0.0 if u < 0.15 else 1.0
+        return v
+
     if gkind == 'none':
         gb = None
     elif gkind == 'sym':
         gb = float(np.round(rng.uniform(0.1, 0.42), 3))
     else:
-        gb = [float(np.round(rng.uniform(0.05, 0.42), 3)), float(np.round(rng.uniform(0.55, 0.9), 3))]
+        gb = pair((0.05, 0.42), (0.55, 0.9))
     cont = outcome == 'continuous'
-    opts = dict(gbound=gb, inter=bool(rng.integers(0, 2)),
-                qbound=(None if rng.uniform() < 0.6 else float(rng.choice([0.05, 0.1]))) if cont else None,
-                dist=(str(rng.choice(['gaussian', 'gaussian', 'poisson'])) if cont else None),
-                mbound=(None if rng.uniform() < 0.5 else float(rng.choice([0.15, 0.2]))) if missing == 'model' else None)
+    u = rng.uniform()
+    # truncation of the initial outcome predictions: none / symmetric / asymmetric (no limit of exactly 0 or 1 here:
+    # logit of the truncated prediction must exist)
+    qb = (None if u < 0.55 else float(rng.choice([0.05, 0.1])) if u < 0.8 else
+          pair((0.02, 0.3), (0.6, 0.97), ends=False)) if cont else None
+    u = rng.uniform()
+    mb = (None if u < 0.5 else float(rng.choice([0.15, 0.2])) if u < 0.75 else
+          pair((0.1, 0.4), (0.8, 0.95))) if missing == 'model' else None
+    opts = dict(gbound=gb, inter=bool(rng.integers(0, 2)), qbound=qb,
+                dist=(str(rng.choice(['gaussian', 'gaussian', 'poisson'])) if cont else None), mbound=mb)
+    # how a pair is handed over (list / tuple, two entries / a third one that is documented to be ignored)
+    for k, kk in (('gbound', 'gbk'), ('qbound', 'qbk'), ('mbound', 'mbk')):
+        opts[kk] = (('list' if plain else str(rng.choice(BOUND_KINDS))) if isinstance(opts[k], list) else None)
     if plain:
         opts.update(custom='', order='gmq')
     else:
@@ -904,7 +1093,20 @@ def spec_options(rng, outcome, missing, gkind, plain=False):
         order = ''.join(rng.permutation(list('gmq')).tolist())
         opts.update(custom=custom, order=order, warm=bool(custom and rng.uniform() < 0.3),
                     termorder=bool(rng.uniform() < 0.3))
+        opts.update(draw_observers(rng, 0.3))
     return opts
+
+
+def draw_observers(rng, p):
+    """reporting / diagnostic calls around the last fit: between two specifications (`mid`, text reports only), between
+    the last specification and fit() (`pre`), between fit() and reading the results (`post`)"""
+    names = sorted(OBSERVERS)
+    out = {}
+    for pos, pool in (('mid', CHEAP_OBSERVERS), ('pre', names), ('post', names)):
+        if rng.uniform() < p:
+            k = 1 + int(rng.uniform() < 0.3)
+            out[pos] = [str(v) for v in rng.choice(list(pool), size=k, replace=False)]
+    return out
 
 
 def data_options(rng, outcome, missing, xcont, tier, plain=False):
@@ -984,6 +1186,66 @@ def tmle_cells(rng, tier):
             cfg.update(spec_options(rng, 'binary', missing, str(rng.choice(['none', 'sym'])), plain=True))
             cfg.update(rare=True, nlo=500, nhi=1000, inter=False)
             yield cfg, seed(), 'single', None
+    # (6) every reporting / diagnostic method, in every position around the fit that is judged: between the last
+    #     specification and fit() and between fit() and reading the results (single fit), and inside a history
+    reps = 1 if tier == 'quick' else 4
+    for outcome in ('binary', 'continuous'):
+        for pos in ('pre', 'post'):
+            for name in sorted(OBSERVERS):
+                for rep in range(reps):
+                    missing = str(rng.choice(['none', 'nomodel', 'model']))
+                    cfg = data_options(rng, outcome, missing, bool(rng.integers(0, 2)), tier, plain=True)
+                    cfg.update(spec_options(rng, outcome, missing, str(rng.choice(['none', 'sym', 'asym'])), plain=True))
+                    cfg[pos] = [name]
+                    if rng.uniform() < 0.3:                # a second call of some (other or the same) method
+                        cfg[pos] = cfg[pos] + [str(rng.choice(sorted(OBSERVERS)))]
+                    yield cfg, seed(), 'single', None
+        for name in CHEAP_OBSERVERS:
+            missing = str(rng.choice(['none', 'model']))
+            cfg = data_options(rng, outcome, missing, True, tier, plain=True)
+            cfg.update(spec_options(rng, outcome, missing, 'sym', plain=True))
+            cfg.update(mid=[name], order=''.join(rng.permutation(list('gmq')).tolist()))
+            yield cfg, seed(), 'single', None
+    for hist in HISTORIES[1:]:
+        for rep in range(2 if tier == 'quick' else 8):
+            outcome = ('binary', 'continuous')[rep % 2]
+            missing = 'model' if hist == 'respec_m' else str(rng.choice(['none', 'nomodel', 'model']))
+            base = data_options(rng, outcome, missing, bool(rng.integers(0, 2)), tier, plain=True)
+            cfg = dict(base, **spec_options(rng, outcome, missing, str(rng.choice(['none', 'sym', 'asym'])), plain=True))
+            cfg0 = dict(base, **spec_options(rng, outcome, missing, str(rng.choice(['none', 'sym'])), plain=True))
+            if hist == 'respec_q':
+                cfg0['inter'] = not cfg['inter']
+            obs = draw_observers(rng, 0.7)
+            cfg.update(obs or {'post': ['summary']})
+            cfg0.update(draw_observers(rng, 0.5))
+            yield cfg, seed(), hist, cfg0
+    # (7) how a truncation bound is handed over: float / list / tuple / a collection with a third entry, for each of
+    #     the three nuisance models; continuous outcomes that are right-skewed, so that the Gaussian outcome model
+    #     predicts outside the unit interval and the truncation of the initial predictions is what keeps logit defined
+    reps = 1 if tier == 'quick' else 4
+    for kind in BOUND_KINDS:
+        for which in ('g', 'q', 'm', 'gqm'):
+            for rep in range(reps):
+                outcome = 'continuous' if 'q' in which else ('binary', 'continuous')[int(rng.integers(0, 2))]
+                missing = 'model' if 'm' in which else str(rng.choice(['none', 'nomodel']))
+                cfg = data_options(rng, outcome, missing, bool(rng.integers(0, 2)), tier, plain=True)
+                for _ in range(50):                        # draw until the wanted bounds are pairs
+                    so = spec_options(rng, outcome, missing, 'asym' if 'g' in which else str(rng.choice(['none', 'sym'])))
+                    if all(isinstance(so[k + 'bound'], list) for k in which):
+                        break
+                cfg.update(so)
+                cfg.update(custom='', warm=False, mid=None, pre=None, post=None)
+                for k in which:
+                    cfg[k + 'bk'] = kind
+                if outcome == 'continuous':
+                    cfg.update(skew=float(rng.choice([1.0, 1.3])), dist='gaussian')
+                yield cfg, seed(), 'single', None
+    for rep in range(4 if tier == 'quick' else 16):       # skewed outcome, every way of (not) asking for a q bound
+        missing = ('none', 'nomodel', 'model')[rep % 3]
+        cfg = data_options(rng, 'continuous', missing, bool(rep % 2), tier, plain=rep % 2 == 0)
+        cfg.update(spec_options(rng, 'continuous', missing, str(rng.choice(['none', 'sym', 'asym'])), plain=rep % 2 == 0))
+        cfg.update(skew=float(rng.choice([1.0, 1.3])), dist='gaussian' if rep % 4 else 'poisson')
+        yield cfg, seed(), 'single', None
 
 
 def run(chk, drv, rng, tier):
@@ -1007,7 +1269,9 @@ def run(chk, drv, rng, tier):
                 for k in ks:
                     for _ in range(reps):
                         gb = None if rng.uniform() < 0.5 else [0.2, 0.7]
+                        post = [str(rng.choice(['summary', 'summary:1', 'summary:5']))] if rng.uniform() < 0.5 else None
                         cfg = dict(estimator=estimator, outcome=outcome, learner=learner, k=k, gbound=gb, nlo=300,
+                                   gbk=str(rng.choice(BOUND_KINDS)) if gb else None, post=post,
                                    nhi=600, adtype=str(rng.choice(['int64', 'uint8', 'uint16', 'int8', 'float64'])),
                                    dropped=int(rng.choice([0, 2, 5])), rs0=bool(rng.integers(0, 2)),
                                    index=str(rng.choice(['range', 'shifted', 'string'])))
